@@ -310,7 +310,7 @@ type Verifier struct {
 	assumed      map[string]bool // assumption strings
 	repoRoot     string
 	effects      map[string]*Effects
-	fieldContent map[string]string // "pkg.Type.field" -> content heap key of its pointee / map
+	fieldContent map[string]string   // "pkg.Type.field" -> content heap key of its pointee / map
 	assignedIn   map[string][]string // field -> functions that assign it directly
 }
 
